@@ -36,6 +36,9 @@ static bool shared_op = false;
 // OpMode "pair": two operations whose order matters (first electron locked with a rotation of the whole event, then every gamma
 // locked into another cone), registered in that order with every generator - each generator has objects of its own
 static bool pair_op = false;
+// OpMode "strict": one operation that REFUSES events lacking its target (second electron, error_on_missing_particle): a shot may
+// end with an exception the caller catches; the next shot of the same generator is canonical all the same
+static bool strict_op = false;
 static std::shared_ptr<bxdecay0::momentum_direction_lock_event_op> the_shared_op;
 
 static void configure(decay0_generator & g, const std::string & c_)
@@ -63,7 +66,11 @@ static void configure(decay0_generator & g, const std::string & c_)
       g.set_decay_dbd_esum_range(std::atof(win.substr(0, colon).c_str()), std::atof(win.substr(colon + 1).c_str()));
     }
   }
-  if (with_op && pair_op) {
+  if (with_op && strict_op) {
+    auto op = std::make_shared<bxdecay0::momentum_direction_lock_event_op>();
+    op->set(bxdecay0::ELECTRON, 1, 0.0, 0.0, 1.0, 0.5, true);   // the SECOND electron: Co60 decays are refused, double-beta ones are not
+    g.add_operation(op);
+  } else if (with_op && pair_op) {
     auto op1 = std::make_shared<bxdecay0::momentum_direction_lock_event_op>();
     op1->set(bxdecay0::ELECTRON, 0, 0.3, 0.4, 0.866, 0.3, false);
     g.add_operation(op1);
@@ -97,7 +104,12 @@ static std::string canon_here(const std::string & cfg, const std::string & s)
   g.initialize(ip);
   bxdecay0::event ev;
   vh::stream st(seed_of(s));
-  g.shoot(st, ev);
+  try {
+    g.shoot(st, ev);
+  } catch (std::exception &) {
+    if (!strict_op) throw;
+    return "REFUSED";
+  }
   return vh::fingerprint(ev);
 }
 // ... computed in a process of its own (exec of this program with --canon): nothing an earlier request may have left behind
@@ -110,7 +122,7 @@ static std::string canon(const std::string & cfg, const std::string & s)
   n_canon++;
   std::string out;
   if (!self_exe.empty()) {
-    std::string cmd = "'" + self_exe + "' --canon '" + cfg + "' '" + s + "'" + (pair_op ? " --pair-op" : with_op ? " --with-op" : "") + " 2>/dev/null";
+    std::string cmd = "'" + self_exe + "' --canon '" + cfg + "' '" + s + "'" + (strict_op ? " --strict-op" : pair_op ? " --pair-op" : with_op ? " --with-op" : "") + " 2>/dev/null";
     FILE * pf = popen(cmd.c_str(), "r");
     if (pf) {
       char buf[4096];
@@ -185,10 +197,16 @@ struct Runner
       } else if (a.name == "Shoot") {
         vh::stream st(seed_of(a.a[2]));
         bxdecay0::event & ev = evs[a.a[1]];
-        gens[a.a[0]]->shoot(st, ev);
+        bool refused = false;
+        try {
+          gens[a.a[0]]->shoot(st, ev);
+        } catch (std::exception &) {
+          if (!strict_op) throw;
+          refused = true;
+        }
         shots[a.a[0]]++;
         n_shoots++;
-        std::string got = vh::fingerprint(ev), want = canon(gcfg[a.a[0]], a.a[2]);
+        std::string got = refused ? std::string("REFUSED") : vh::fingerprint(ev), want = canon(gcfg[a.a[0]], a.a[2]);
         if (got != want) {
           std::string key = "history-dependent:" + gcfg[a.a[0]];
           if (vkeys.insert(key).second)
@@ -202,7 +220,13 @@ struct Runner
       } else if (a.name == "ShootMany") {
         vh::stream st(777);
         bxdecay0::event & ev = evs[a.a[1]];
-        for (int i = 0; i < 1000; i++) gens[a.a[0]]->shoot(st, ev);
+        for (int i = 0; i < 1000; i++) {
+          try {
+            gens[a.a[0]]->shoot(st, ev);
+          } catch (std::exception &) {
+            if (!strict_op) throw;   // strict: the caller catches the refusal and goes on with the next decay
+          }
+        }
         shots[a.a[0]] += 1000;
       } else if (a.name == "Destroy") {
         gens.erase(a.a[0]);
@@ -275,6 +299,7 @@ int main(int argc, char ** argv)
       for (int j = i + 3; j < argc; j++) {
         if (std::string(argv[j]) == "--with-op") with_op = true;
         if (std::string(argv[j]) == "--pair-op") with_op = pair_op = true;
+        if (std::string(argv[j]) == "--strict-op") with_op = strict_op = true;
       }
       std::string fp = canon_here(argv[i + 1], argv[i + 2]);
       std::cout << "CANON<" << fp << ">CANON" << std::endl;
@@ -289,6 +314,7 @@ int main(int argc, char ** argv)
     else if (a == "--with-op") with_op = true;
     else if (a == "--shared-op") with_op = shared_op = true;
     else if (a == "--pair-op") with_op = pair_op = true;
+    else if (a == "--strict-op") with_op = strict_op = true;
   }
   std::ifstream in(graph);
   std::string line;
